@@ -463,3 +463,7 @@ mod builtins {
 
 #[cfg(feature = "builtins")]
 pub use self::builtins::*;
+
+#[cfg(kani)]
+#[path = "/verif/kani/tests.rs"]
+mod verif_kani;
